@@ -64,3 +64,34 @@ func FuzzC05(f *testing.F) {
 		}
 	}))
 }
+
+func FuzzC14(f *testing.F) {
+	params := C14Params(false)
+	f.Add([]byte{})
+	f.Add([]byte{3, 1, 4, 1, 5, 9, 2, 6, 5, 3, 5, 8, 9, 7, 9, 3, 2, 3, 8, 4})
+	f.Fuzz(rapid.MakeFuzz(func(rt *rapid.T) {
+		p := genC14(rt, params)
+		res := Guard(func() Result { return RunC14(p) })
+		if res.V != nil && matchKnown("C14", res.V) == "" {
+			fuzzFail("C14", "file", p.JSON(), res.V)
+			rt.Fatalf("C14 violated: %v", res.V)
+		}
+	}))
+}
+
+// FuzzC06Faults: queue histories under I/O fault plans (part 3 of C06).
+func FuzzC06Faults(f *testing.F) {
+	params := C06Params(false)
+	params.MaxBlocks = 10
+	f.Add([]byte{})
+	f.Add([]byte{2, 7, 1, 8, 2, 8, 1, 8, 2, 8, 4, 5, 9, 0, 4, 5})
+	f.Fuzz(rapid.MakeFuzz(func(rt *rapid.T) {
+		p := harness.GenQProgram(rt, params)
+		p.Aux = []uint64{2, rapid.Uint64().Draw(rt, "faultseed")}
+		res := Guard(func() Result { return RunC06Faults(p) })
+		if res.V != nil && matchKnown("C06", res.V) == "" {
+			fuzzFail("C06", "queue", p.JSON(), res.V)
+			rt.Fatalf("C06 violated: %v", res.V)
+		}
+	}))
+}
